@@ -69,6 +69,9 @@ func (pt *PersistentPendingTxs) PopUpToMaxBytes(maxBytes uint64) ([][]byte, [][]
 	return poppedTxs, ids, totalSize, timestamp
 }
 
+// Len returns the number of queued entries.
+func (pt *PersistentPendingTxs) Len() int { return len(pt.list) }
+
 // Save saves the pending transactions to the datastore.
 func (pt *PersistentPendingTxs) Save() error {
 	data, err := json.Marshal(pt.list)
